@@ -380,5 +380,6 @@ def main(rep, tier):
     _c.witnesses(rep, "C05", f)
     return rep.finish(
         "Hand-off provenance: (buffer, length) pairs passed at each conversion, constructor field initialisation, guard dominance, and the "
-        "order discard -> compact -> read free_start on every Ok path of the stream parser's conversions.",
+        "location of the unparsed input at [0, n) at every hand-over (E8 region tracking through discard and compaction), input accounting on every parse path, "
+        "exact skip arithmetic, and no parser drive at a record boundary during close().",
         not_decided="equivalence of k sequential requests with k separate connections (behavioural consequence; depends on C01/C02 value-level clauses)")
